@@ -185,7 +185,7 @@ def run_item(item):
             in_lines.append(l.encode())
             segs.append(('text', l.encode(), 'real'))
     else:
-        layout = rng.choice(['text-only', 'text-then-diff', 'log-p', 'log-p', 'text-only', 'log-oneline-p'])
+        layout = rng.choice(['text-only', 'text-then-diff', 'log-p', 'log-p', 'text-only', 'log-oneline-p', 'plain-diff-then-text'])
         shape.append(layout)
 
         def add_text(n):
@@ -258,7 +258,28 @@ def run_item(item):
             segs.append(('anchor', nm.encode()))
             shape.append('hunkless-tail:' + which)
 
-        if layout == 'log-oneline-p':
+        if layout == 'plain-diff-then-text':
+            # what a script prints: diff -u a b; echo; echo "2 files differ".  The hunks are complete (their line counts say
+            # so): the empty line and the text after them are not lines of the diff
+            add_text(rng.randint(0, 3))
+            d = gen.gen_diff(rng, fmt='plain', nsections=rng.randint(1, 2), kinds=['modified'], maxlen=40, simple_paths=True)
+            for j, s_ in enumerate(d.sections):
+                s_.new_path = s_.old_path = 'plainuniq%d_%s' % (j, s_.new_path.replace('/', '_'))
+                for h in s_.hunks:
+                    h.lines = [(kk, t) for kk, t in h.lines if kk != '\\'] or [(' ', 'x')]
+                    h.omit_counts = False
+            d.sections[-1].hunks[-1].lines[-1] = (d.sections[-1].hunks[-1].lines[-1][0], 'zqplainlast')
+            for l in d.lines():
+                in_lines.append(l.encode())
+            segs.append(('anchor', d.sections[0].new_path.encode()))
+            segs.append(('anchor', b'zqplainlast'))
+            in_lines.append(b'')
+            segs.append(('text', b'', 'plain'))
+            for _ in range(rng.randint(1, 3)):
+                t = rng.choice(['2 files differ', 'done.', 'summary: 1 hunk', 'Only changes in comments', 'exit status 1', 'see also the log'])
+                in_lines.append(t.encode())
+                segs.append(('text', t.encode(), 'plain'))
+        elif layout == 'log-oneline-p':
             # git log --oneline -p (or any --format without a blank line): 'hash subject' directly followed by the diff, the
             # next 'hash subject' directly after the last line of that diff
             for k in range(rng.randint(2, 4)):
